@@ -44,7 +44,11 @@ func init() {
 			"that mailbox's messages and be linearizable; (e) churn: 2-5 goroutines, each the only user of its own mailbox, cycle neighbouring mailboxes (same level-1 " +
 			"directory with different / equal 4th hash digit, same level-2 directory, the lock-bucket pair, an outsider) through deliver -> read back -> empty " +
 			"(remove, purge, cap-1 eviction) on file and memory stores, optionally under a visiting goroutine: every operation succeeds and every result is " +
-			"exactly what the owner's own sequence determines. " +
+			"exactly what the owner's own sequence determines; (f) content through handles: every delivery carries bytes unique to it; the stress clients and the " +
+			"directed stream 'handles' (obtain a handle by get/latest/list/visit -> the message leaves its mailbox by remove, purge, cap eviction, size eviction or " +
+			"retention scan, or stays -> deliveries to other mailboxes -> read the handle; 8-30 rounds per case, six configurations, alone or next to a delivering " +
+			"goroutine) read the source through every handle at once and again later, after other operations: each read returns exactly the bytes of the delivery " +
+			"that received the handle's id, or an error - never another delivery's bytes, never a mix. " +
 			"A history is non-trivial when it contains at least one pair of overlapping operations on the same mailbox; distinct by (config, multiset of " +
 			"overlapping operation-kind pairs).",
 		Assumptions: []string{
@@ -52,6 +56,7 @@ func init() {
 			"evictions by the global size enforcer are modelled as separate 'remove if present' operations spanning [call of the add that created the id, observation of its deleted event]; whether the right message was evicted is C08's question",
 			"the race detector only reports races that occur in the executions produced",
 			"file-store histories run one store at a time per child process",
+			"a handle whose message has left its mailbox may fail to read (the file store has deleted the file); such errors are counted, not judged",
 		},
 		MinObs: func(tier string) map[string]int64 {
 			return map[string]int64{"storms": 30, "histories": 100, "overlapping_pairs": 2000, "porcupine_ok": 100, "directed_schedules": 8,
@@ -62,7 +67,11 @@ func init() {
 				"damaged_overlapping_reads": 2000,
 				// stream "churn": create/empty cycles of neighbouring mailboxes; how often an emptying
 				// overlapped another mailbox's first delivery
-				"churn_cases": 30, "churn_rounds": 3000, "churn_empties": 3000, "churn_empty_overlaps_first_delivery": 2000}
+				"churn_cases": 30, "churn_rounds": 3000, "churn_empties": 3000, "churn_empty_overlaps_first_delivery": 2000,
+				// content through handles (after C09-12): reads right after a handle was obtained, reads of
+				// kept handles after other operations, and - in the directed stream - reads of handles
+				// whose message had certainly left its mailbox, after later deliveries elsewhere
+				"handle_reads": 10000, "handle_rereads": 25000, "handles_cases": 60, "handles_rereads_of_departed_after_delivery": 3000}
 		},
 		Run: run,
 	})
@@ -248,6 +257,10 @@ type recorder struct {
 	addCall map[string]int64
 	deleted map[string]int64 // (mailbox,id) -> logical time the deleted event was observed
 	sighted map[string]int64 // (mailbox,id) -> latest call time of a read that saw the message
+	// content (C09-12): every delivery's bytes and every read through a handle, merged from the clients
+	sent        []sentMsg
+	reads       []handleRead
+	contentOnly bool // judge() stops before the linearizability check
 }
 
 func newRecorder() *recorder {
@@ -262,6 +275,11 @@ func (r *recorder) merge(c *client) {
 		r.add(o.ClientId, o.Input.(opIn), o.Call, o.Output.(opOut), o.Return)
 	}
 	c.ops = nil
+	r.mu.Lock()
+	r.sent = append(r.sent, c.sent...)
+	r.reads = append(r.reads, c.reads...)
+	r.mu.Unlock()
+	c.sent, c.reads = nil, nil
 }
 
 func (r *recorder) add(client int, in opIn, call int64, out opOut, ret int64) {
@@ -338,6 +356,15 @@ type client struct {
 	st  storage.Store
 	rec *recorder
 	ops []porcupine.Operation // private buffer, merged into rec after the client stopped
+
+	// Content read through handles (added after seeded change C09-12, see content.go); all of it
+	// private to the client's goroutine until merge.
+	track bool         // read the source through every handle obtained, keep the handle, re-read later
+	nadd  int          // serial of this client's deliveries
+	nobs  int          // handles observed
+	sent  []sentMsg    // deliveries that returned an id, with their exact bytes
+	held  []heldMsg    // handles kept for later reads
+	reads []handleRead // what was read through them
 }
 
 func (c *client) record(in opIn, call int64, out opOut, ret int64) {
@@ -347,7 +374,8 @@ func (c *client) record(in opIn, call int64, out opOut, ret int64) {
 func notExist(err error) bool { return errors.Is(err, storage.ErrNotExist) }
 
 func (c *client) Add(mailbox string, size int, date time.Time) string {
-	body := "Subject: s\r\n\r\n" + strings.Repeat("x", size)
+	// Bytes unique to this delivery (C09-12): what is read back under its id must be exactly these.
+	body := c.nextBody(mailbox, size)
 	d := sut.NewDelivery(mailbox, nil, nil, "s", date, []byte(body))
 	t0 := c.rec.now()
 	id, err := c.st.AddMessage(d)
@@ -357,6 +385,7 @@ func (c *client) Add(mailbox string, size int, date time.Time) string {
 		return ""
 	}
 	c.record(opIn{Kind: "add", Mailbox: mailbox}, t0, opOut{ID: id}, t1)
+	c.sent = append(c.sent, sentMsg{mb: mailbox, id: id, body: body, ret: t1})
 	return id
 }
 
@@ -383,6 +412,10 @@ func (c *client) Get(mailbox, id string) {
 		in.ID = id
 	}
 	c.record(in, t0, out, t1)
+	if out.Found {
+		// After the call returned, like every real consumer: read the content through the handle.
+		c.observe(kind, m)
+	}
 }
 
 func (c *client) List(mailbox string) []string {
@@ -398,6 +431,7 @@ func (c *client) List(mailbox string) []string {
 		return nil
 	}
 	c.record(opIn{Kind: "list", Mailbox: mailbox}, t0, opOut{IDs: ids}, t1)
+	c.observeSome("list", ms)
 	return ids
 }
 
@@ -447,6 +481,7 @@ func (c *client) Visit(f func([]storage.Message) bool) error {
 				ids = append(ids, m.ID())
 			}
 			c.record(opIn{Kind: "list", Mailbox: ms[0].Mailbox()}, prev, opOut{IDs: ids}, t1)
+			c.observeSome("visit", ms)
 		}
 		cont := true
 		if f != nil {
@@ -530,6 +565,8 @@ func run(c *fw.Ctx) {
 	c.Cases("damaged", c.N(96, 1600), func(i int, r *fw.Rand) { damaged(c, i, r) })
 	// Create/empty cycles of neighbouring mailboxes, one owner each (see churn.go).
 	c.Cases("churn", c.N(48, 960), func(i int, r *fw.Rand) { churn(c, i, r) })
+	// Added after seeded change C09-12: content read through handles obtained earlier (see content.go).
+	c.Cases("handles", c.N(96, 1440), func(i int, r *fw.Rand) { handles(c, i, r) })
 	verifhook.Set(nil)
 }
 
@@ -620,7 +657,8 @@ func stress(c *fw.Ctx, idx int, r *fw.Rand) {
 	for ci := range plans {
 		for k := 0; k < nops; k++ {
 			// add get latest list seen remove purge visit scan
-			plans[ci].kinds = append(plans[ci].kinds, r.Weighted([]int{30, 10, 6, 12, 8, 14, 4, 5, 2}))
+			// + reread: read handles obtained by earlier get/latest/list/visit operations again
+			plans[ci].kinds = append(plans[ci].kinds, r.Weighted([]int{30, 10, 6, 12, 8, 14, 4, 5, 2, 9}))
 			plans[ci].args = append(plans[ci].args, r.Uint64())
 		}
 	}
@@ -632,7 +670,7 @@ func stress(c *fw.Ctx, idx int, r *fw.Rand) {
 			wg.Add(1)
 			go func(ci int) {
 				defer wg.Done()
-				cl := &client{id: ci, st: st, rec: rec}
+				cl := &client{id: ci, st: st, rec: rec, track: true}
 				defer func() { clients[ci] = cl }()
 				var known []struct{ mb, id string } // ids this client has seen
 				<-start
@@ -682,8 +720,12 @@ func stress(c *fw.Ctx, idx int, r *fw.Rand) {
 						if err := rs.DoScan(context.Background()); err != nil {
 							rec.fail("retention DoScan: %v", err)
 						}
+					case 9:
+						cl.reread(a>>20, 3)
 					}
 				}
+				// Whatever this client still holds, read once more: the others are still running.
+				cl.reread(0, 0)
 			}(ci)
 		}
 		close(start)
@@ -704,7 +746,13 @@ func stress(c *fw.Ctx, idx int, r *fw.Rand) {
 		return
 	}
 	// Final quiescent observation by one more client.
-	fin := &client{id: nclients, st: st, rec: rec}
+	fin := &client{id: nclients, st: st, rec: rec, track: true}
+	// Every handle any client kept is read once more now that everything has happened.
+	for _, cl := range clients {
+		if cl != nil {
+			fin.rereadOf(cl)
+		}
+	}
 
 	var total int64
 	for _, mb := range boxes {
@@ -901,12 +949,22 @@ func judge(c *fw.Ctx, cf cfg, rec *recorder, desc string, total int64) {
 		}
 	}
 	dups := append([]string(nil), rec.dupIDs...)
+	sent := append([]sentMsg(nil), rec.sent...)
+	reads := append([]handleRead(nil), rec.reads...)
+	deleted := map[string]int64{}
+	for k, t := range rec.deleted {
+		deleted[k] = t
+	}
 	rec.mu.Unlock()
+	// Content read through handles (added after seeded change C09-12, see content.go).
+	judgeContent(c, cf, desc, sent, reads, deleted)
 	for _, d := range dups {
 		c.Violation("C09:duplicate-id", fmt.Sprintf("%s: two deliveries received the same id %q", desc, strings.ReplaceAll(d, "\x00", "/")), nil)
 	}
-	c.Count("histories", 1)
-	c.Count("operations", int64(len(ops)))
+	if !rec.contentOnly {
+		c.Count("histories", 1)
+		c.Count("operations", int64(len(ops)))
+	}
 	for _, e := range errs {
 		key := "C09:op-error"
 		if strings.Contains(e, "VisitMailboxes") || strings.Contains(e, "DoScan") {
@@ -919,6 +977,12 @@ func judge(c *fw.Ctx, cf cfg, rec *recorder, desc string, total int64) {
 	}
 	if cf.maxkb > 0 && total > int64(cf.maxkb)*1024 {
 		c.Violation("C09:size-limit-exceeded-at-rest", fmt.Sprintf("%s: %d bytes stored at the final quiescent point, limit %d", desc, total, cf.maxkb*1024), nil)
+	}
+	if rec.contentOnly {
+		// Stream "handles": one goroutine in program order; what is judged is the content (above),
+		// errors, ids and the size limit.  (With maxkb its many evictions, each an operation spanning
+		// [add, deleted event], made the linearizability search time out for nothing.)
+		return
 	}
 	// Overlap statistics.
 	pairs, sig := overlaps(ops)
